@@ -36,6 +36,10 @@ def scope_c09(t):
     return t["root"].startswith("operators::") and _root_mod(t) in SCHED_OPS
 
 
+def scope_c11(t):
+    return t["root"].startswith("operators::") and _root_mod(t) in ("merge", "flat_map", "zip", "concat", "amb")
+
+
 def scope_c02(t):
     return not (scope_c03(t) or scope_c04(t) or scope_c09(t))
 
@@ -139,6 +143,8 @@ def rules_for(pid):
             ("SUB-inputs", lambda c: RX.sub_inputs(c.P, c.E, c.H), 40),
             ("RETRY", lambda c: ROPS.retry_rule(c.P, c.E, c.H), 2),
             ("S-gate", lambda c: RO.s_gate(c.P, c.E), 3),
+            # amb is not an error handler: the error of the input that signals first (or of the winner) is mirrored
+            ("AMB", lambda c: ROPS.amb_rule(c.P, c.E, c.H), 1),
         ],
         "C05": [
             ("O-unsub-order", lambda c: RO.o_unsub_order(c.P, c.E), 4),
@@ -166,6 +172,11 @@ def rules_for(pid):
             ("LATE-HANDLE", lambda c: RJ.late_handle(c.P, c.E), 2),
             ("X-blocking-acq", _xacq("operators::", "internals::stream_controller::", "subscription::", "observable::"), 40),
             ("CLONE-SHARES", _xclone(1, "internals::stream_controller::"), 1),
+            # take is the early finisher among the counting operators: "has all it needs" is the count-th item (take(0): the first)
+            ("COUNT-take", lambda c: _only(RCNT.count_rule(c.P, c.E, c.H), ("operators::take::Take",)), 1),
+            # a subscription that ends before the scheduler ran the subscribing task must still reach the scheduler (abort wired
+            # before anything is posted): otherwise the queued task subscribes the source for a subscriber that has left
+            ("T1", lambda c: RS.t1_abort_wired(c.P, c.E), 3),
         ],
         "C07": [
             ("L1", lambda c: RL.l1_reentrancy(c.P, c.E, c.H), 19),
@@ -173,7 +184,9 @@ def rules_for(pid):
             ("L4", lambda c: RL.l4_producer_polling(c.P, c.E), 3),
             ("F-no-guard-call", lambda c: RO.f_no_guard_call(c.P, c.E), 3),
             ("S-finalize-after-terminal", lambda c: RO.s_finalize_after_terminal(c.P, c.E), 3),
-            ("Q-lock-order", lambda c: _only(RQ.q_rules(c.P, c.E), ("L3", "Q1", "Q10")), 2),
+            # lock order of the queue's cells (L3, Q1, Q10) and the wake-up protocol: a parked worker is woken by every enabling write (Q2),
+            # its predicate reads both conditions (Q3) and it re-checks abort before it pops (Q4) - else it waits forever
+            ("Q-lock-order", lambda c: _only(RQ.q_rules(c.P, c.E), ("L3", "Q1", "Q10", "Q2", "Q3", "Q4")), 5),
         ],
         "C08": [
             ("Q", lambda c: RQ.q_rules(c.P, c.E), 10),
@@ -195,6 +208,9 @@ def rules_for(pid):
             ("W", lambda c: RW.w_rules(c.P, c.E), 4),
             ("CLONE-SHARES", _xclone(1, "operators::to_vec::"), 1),
             ("X-blocking-acq", _xacq("operators::to_vec::"), 3),
+            # the vector the future yields is final: to_vec's buffer grows only in the next callback (W4), and the observer it
+            # subscribes with runs no callback after a terminal
+            ("O-typestate", lambda c: RO.o_typestate(c.P, c.E, ("callback after terminal",)), 1),
         ],
         "C09": [
             ("HANDOFF", lambda c: RS.handoff_rules(c.P, c.E, c.H), 3),
@@ -207,6 +223,9 @@ def rules_for(pid):
                                                         and root.split("::")[1] in SCHED_OPS), 2),
             ("H-next-forward", lambda c: ROPS.forward_rule(c.P, c.E, c.H), 8),
             ("SUB-inputs", lambda c: RX.sub_inputs(c.P, c.E, c.H), 40),
+            # observe_on's handlers only post: nothing on the emitting thread may tear the stream down behind them
+            ("S-wiring-relay", lambda c: _only(RO.s_wiring(c.P, c.E), ("internals::stream_controller::StreamController::new_observer",),
+                                               contains=("relay", "registered observer")), 3),
         ],
         "C10": [
             ("J", lambda c: RJ.j_rules(c.P, c.E), 8),
@@ -225,6 +244,8 @@ def rules_for(pid):
             ("S-fresh-serial", lambda c: RO.s_fresh_serial(c.P, c.E), 2),
             ("F-atomic-take", lambda c: RO.f_atomic_take(c.P, c.E), 3),
             ("AMB", lambda c: ROPS.amb_rule(c.P, c.E, c.H), 1),
+            # "exactly one complete": every input's completion must reach the remove-and-test (or start the successor)
+            ("H-complete", lambda c: RH.h_complete(c.P, c.E, c.H, scope_c11), 5),
         ],
         "C12": [
             ("J", lambda c: _only(RJ.j_rules(c.P, c.E), ("J1", "J2", "J3", "J6", "J7")), 5),
@@ -240,10 +261,13 @@ def rules_for(pid):
             ("CLONE-SHARES", _xclone(3, "operators::ref_count::", "operators::replay::", "operators::publish::"), 3),
             ("OBS-fresh", lambda c: RX.obs_fresh(c.P, c.E, c.H), 30),
             ("LATE-HANDLE", lambda c: RJ.late_handle(c.P, c.E), 2),
+            # the count-down hooks of ref_count/replay hear of a leaving subscriber only through Subscription::unsubscribe
+            ("SUB", lambda c: RO.sub_rules(c.P, c.E), 3),
         ],
         "C15": [
             ("T1", lambda c: RS.t1_abort_wired(c.P, c.E), 3),
-            ("Q7-Q8", lambda c: _only(RQ.q_rules(c.P, c.E), ("Q7", "Q8")), 3),
+            # a parked worker hears of the abort (Q2 notify after the flag, Q3 predicate reads it), is the only one (Q7), and its loop ends on it (Q8)
+            ("Q-exit", lambda c: _only(RQ.q_rules(c.P, c.E), ("Q2", "Q3", "Q7", "Q8")), 5),
             ("S-finalize-shape", lambda c: RO.s_finalize_shape(c.P, c.E), 3),
             ("L4", lambda c: RL.l4_producer_polling(c.P, c.E), 3),
             ("S-finalize-after-terminal", lambda c: RO.s_finalize_after_terminal(c.P, c.E), 3),
@@ -258,6 +282,8 @@ def rules_for(pid):
             ("F-no-guard-call", lambda c: RO.f_no_guard_call(c.P, c.E), 3),
             ("X-blocking-acq", _xacq("observer::", "internals::function_wrapper::"), 5),
             ("F-slot-truth", lambda c: RO.f_slot_truth(c.P, c.E), 4),
+            # the arbitration cells (three slots + the terminal flag) are ONE set per subscriber: every clone shares them
+            ("CLONE-SHARES", _xclone(2, "observer::", "internals::function_wrapper::"), 2),
         ],
         "C14": [
             ("K-fresh-state", lambda c: RK.k_fresh_state(c.P, c.E), 28),
@@ -265,6 +291,9 @@ def rules_for(pid):
             ("CLONE-SHARES", _xclone(40, "operators::", "observable::", "internals::function_wrapper::"), 40),
             ("OBS-fresh", lambda c: RX.obs_fresh(c.P, c.E, c.H), 30),
             ("R1", lambda c: RH.r1_retry_drops_first(c.P, c.E, c.H), 3),
+            # resubscription from inside a hot source's terminal notification (retry, on_error_resume_next, concat of the same
+            # subject): the registry is emptied BEFORE the observers are notified, so what registers meanwhile survives
+            ("J4", lambda c: _only(RJ.j_rules(c.P, c.E), ("J4",)), 2),
         ],
     }
     return R.get(pid, [])
